@@ -60,7 +60,9 @@ SANITIZER_PLAN = {
         "C04": ["explore", "hugechunk", "probe"],
         "C05": ["explore", "hugechunk"], "C06": ["explore", "probe"],
         "C07": ["explore", "probe"], "C08": ["explore"], "C10": ["explore"], "C11": ["explore", "hugechunk"],
+        "C09": ["probe"],
         "C13": ["explore", "miri"], "C14": ["explore", "miri"],
+        "C16": ["probe"],
     },
     "thorough": {
         "C01": ["explore", "bigindex", "hugechunk", "probe", "release", "miri", "asan", "tsan"],
@@ -73,9 +75,11 @@ SANITIZER_PLAN = {
         "C13": ["explore", "release", "miri", "asan"],
         "C14": ["explore", "release", "miri", "asan"],
         "C08": ["explore"],
+        "C09": ["probe"],
         "C10": ["explore"],
         "C11": ["explore", "hugechunk"],
         "C15": ["release"],
+        "C16": ["probe"],
     },
 }
 
